@@ -338,7 +338,7 @@ class FixtureRegistry:
 
     @staticmethod
     def get_fixtures_used_in_suite(suite, include_disabled):
-        if not suite.has_enabled_tests() and not include_disabled:
+        if not suite.has_enabled_tests() and not (include_disabled and suite.get_tests()):
             return OrderedSet()
 
         fixtures = suite.get_fixtures()
